@@ -71,6 +71,8 @@ class _Hooks:
         if isinstance(base, _Cols):
             if a == 'values':
                 return base
+            if a in ('to_numpy', 'copy'):
+                return lambda *x, **k: base
         return None
 
     def subscript(self, ev, base, idx, node, env):
